@@ -35,6 +35,8 @@ import (
 //	    fmt.Printf("Result of reflect.methodName: %v\n", f())
 //	}
 func ExposeFunction(funcSymName string, templateFunc interface{}) (function interface{}, err error) {
+	// funcAlignment is only valid once initAlignmentFunc has run
+	initAlignment.Do(initAlignmentFunc)
 	fn, err := getFunctionSymbolByName(funcSymName)
 	if err != nil {
 		return
